@@ -94,6 +94,14 @@ var anchors = []int64{
 	86400 * 365,
 }
 
+var zoneMonthAnchors = map[string][]int64{
+	"America/Asuncion":  {1506830400, 1696132800}, // 2017-10-01, 2023-10-01: midnight skipped
+	"Asia/Amman":        {1459461600, 1301608800}, // 2016-04-01, 2011-04-01: midnight skipped
+	"America/Havana":    {1333256400, 1446354000}, // 2012-04-01 skipped; 2015-11-01 repeated
+	"Africa/Casablanca": {1212278400},             // 2008-06-01 skipped
+	"Asia/Gaza":         {1096581600},             // 2004-10-01 repeated
+}
+
 func Gen(rnd *rand.Rand, zones []Zone, utcOffset func(Zone, time.Weekday) int64) Case {
 	z := zones[rnd.IntN(len(zones))]
 	ws := time.Weekday(rnd.IntN(7))
@@ -139,6 +147,13 @@ func Gen(rnd *rand.Rand, zones []Zone, utcOffset func(Zone, time.Weekday) int64)
 	}
 	if step == Month && rnd.IntN(2) == 0 { // monthly queries are long
 		start = end - 1 - rnd.Int64N(3000*Day)
+	}
+	if za, ok := zoneMonthAnchors[z.Name]; ok && step == Month && rnd.IntN(2) == 0 {
+		// month starts whose local midnight is skipped or repeated in this zone
+		an := za[rnd.IntN(len(za))]
+		start = an - rnd.Int64N(70*Day) + rnd.Int64N(45*Day)
+		end = max(start+1, an+rnd.Int64N(250*Day))
+		now = end + rnd.Int64N(100*Day)
 	}
 	a := data_model.GetTimescaleArgs{
 		Start: start, End: end, Step: step, TimeNow: now,
@@ -245,9 +260,35 @@ func skippedMidnight(t0, t1 int64, loc *time.Location) (bool, string) {
 	return false, ""
 }
 
+// repeatedMidnight reports whether some month between t0 and t1 (with a margin) starts
+// with a local midnight that occurs twice (daylight saving time ends at 01:00 or 00:00 of
+// the 1st, e.g. Asia/Gaza 2004-10-01, America/Havana 2015-11-01): the second before the
+// 00:00:00 that time.Date returns is then still inside the new month.
+func repeatedMidnight(t0, t1 int64, loc *time.Location) (bool, string) {
+	a := time.Unix(t0-45*Day, 0).In(loc)
+	y, m := a.Year(), a.Month()
+	for i := 0; i < 2000; i++ {
+		d := time.Date(y, m, 1, 0, 0, 0, 0, loc)
+		if d.Unix() > t1+45*Day {
+			break
+		}
+		if p := d.Add(-time.Second); d.Day() == 1 && d.Hour() == 0 && p.Month() == d.Month() {
+			return true, fmt.Sprintf("%04d-%02d-01 00:00 occurs twice in %s", y, int(m), loc)
+		}
+		m++
+		if m > 12 {
+			m, y = 1, y+1
+		}
+	}
+	return false, ""
+}
+
 func monthAlignKey(t0, t1 int64, loc *time.Location) (string, string) {
 	if ok, which := skippedMidnight(t0, t1, loc); ok {
 		return "month-align/skipped-local-midnight", " (" + which + ")"
+	}
+	if ok, which := repeatedMidnight(t0, t1, loc); ok {
+		return "month-align/repeated-local-midnight", " (" + which + ")"
 	}
 	return "month-align/other", ""
 }
@@ -296,6 +337,15 @@ func Judge(c *Case, s Sink) (judged bool, nontrivial bool) {
 		s.Bad("C22/"+key, what+" | "+c.String()+fmt.Sprintf(" | lods=%+v startX=%d view=%d..%d len=%d first=%v", ts.LODs, ts.StartX, ts.ViewStartX, ts.ViewEndX, len(ts.Time), ts.Time[:min(4, len(ts.Time))]))
 	}
 	bad := func(clause, what string) {
+		if monthly {
+			// a month start whose local midnight does not exist or occurs twice is a root cause of
+			// its own (startOfLOD / StepForward / the "t-1 is in the previous month" assumption):
+			// every clause failing on an axis that spans such a month start is keyed by it
+			if k, which := monthAlignKey(ts.Time[0], max(a.End, ts.Time[len(ts.Time)-1]), loc); k != "month-align/other" {
+				badKey(k, clause+": "+what+which)
+				return
+			}
+		}
 		s.Bad("C22/"+clause+"/"+cls, what+" | "+c.String()+fmt.Sprintf(" | lods=%+v startX=%d view=%d..%d len=%d first=%v", ts.LODs, ts.StartX, ts.ViewStartX, ts.ViewEndX, len(ts.Time), ts.Time[:min(4, len(ts.Time))]))
 	}
 	if a.Mode == data_model.PointQuery {
